@@ -291,6 +291,7 @@ func (c *client) fail(err error) {
 
 		// tell goroutines to stop
 		close(c.done)
+		vhook("fail.doneClosed", c, nil)
 
 		// close connection to the regionserver
 		// to let it know that we can't receive anymore
@@ -298,6 +299,7 @@ func (c *client) fail(err error) {
 		if c.conn != nil {
 			c.conn.Close()
 		}
+		vhook("fail.connClosed", c, nil)
 
 		c.failSentRPCs()
 	})
@@ -435,6 +437,7 @@ func (c *client) trySend(rpc hrpc.Call) (err error) {
 		if _, ok := err.(ServerError); ok {
 			c.fail(err)
 		}
+		vhook("trysend.failed", c, id)
 		if r := c.unregisterRPC(id); r != nil {
 			// we are the ones to unregister the rpc,
 			// return err to notify client of it
@@ -503,6 +506,7 @@ func (c *client) receive(r io.Reader) (err error) {
 	if rpc == nil {
 		return ServerError{fmt.Errorf("got a response with an unexpected call ID: %d", callID)}
 	}
+	vhook("recv.unregistered", c, callID)
 	if err := c.inFlightDown(); err != nil {
 		return ServerError{err}
 	}
@@ -640,6 +644,7 @@ func (c *client) send(rpc hrpc.Call) (uint32, error) {
 	// If that happens, client can retry sending the rpc
 	// again potentially changing it's contents.
 	id := c.registerRPC(rpc)
+	vhook("send.registered", c, id)
 
 	b, err := marshalProto(rpc, id, request, cellblocksLen)
 	if err != nil {
@@ -656,6 +661,7 @@ func (c *client) send(rpc hrpc.Call) (uint32, error) {
 	if err != nil {
 		return id, ServerError{err}
 	}
+	vhook("send.written", c, id)
 
 	if err := c.inFlightUp(); err != nil {
 		return id, ServerError{err}
